@@ -101,6 +101,29 @@ func parseVia(c *run.C, cd *codec.Codec, doc []byte, sizes []int, entry int, eof
 			if err, has := hook.Finalize(p); has {
 				out.err = err
 			}
+		case 3, 4:
+			// pull decoders: Next until io.EOF (entry 3: from a reader whose
+			// buffer size is sizes[0] if given, entry 4: from the bytes)
+			var d codec.Decoder
+			if entry == 3 {
+				buf := 64
+				if len(sizes) > 0 && sizes[0] > 0 {
+					buf = sizes[0]
+				}
+				d = cd.NewDecoder(&mon.ChunkReader{Data: doc, Sizes: sizes, EOFWithData: eofWithData}, buf, m.WithRefs())
+			} else {
+				d = cd.NewBytesDecoder(exactCopy(doc), m.WithRefs())
+			}
+			for i := 0; i <= len(doc)+2; i++ {
+				mon.Progress++
+				if err := d.Next(); err != nil {
+					if err != io.EOF {
+						out.err = err
+					}
+					return
+				}
+			}
+			out.err = fmt.Errorf("verif: decoder did not reach io.EOF")
 		}
 	})
 	out.ok = ok
